@@ -3,5 +3,5 @@
 mod ops_text;
 
 fn main() {
-    verif_harness::run_main(&[ops_text::dispatch]);
+    verif_harness::run_main(&[ops_text::dispatch, ops_text::dispatch_float]);
 }
